@@ -55,18 +55,65 @@ pub fn wall_offset_secs() -> i64 {
     WALL_OFFSET_SECS.load(Ordering::SeqCst)
 }
 
-pub struct SystemTime;
+/// Drop-in for `std::time::SystemTime` in type and value positions.
+#[derive(Clone, Copy, Debug, PartialEq, Eq, PartialOrd, Ord, Hash)]
+pub struct SystemTime(pub std::time::SystemTime);
 
 impl SystemTime {
-    pub const UNIX_EPOCH: std::time::SystemTime = std::time::SystemTime::UNIX_EPOCH;
+    pub const UNIX_EPOCH: SystemTime = SystemTime(std::time::SystemTime::UNIX_EPOCH);
 
-    pub fn now() -> std::time::SystemTime {
+    pub fn now() -> SystemTime {
         let t = std::time::SystemTime::now();
         let off = WALL_OFFSET_SECS.load(Ordering::SeqCst);
-        if off >= 0 {
+        SystemTime(if off >= 0 {
             t + Duration::from_secs(off as u64)
         } else {
             t - Duration::from_secs((-off) as u64)
-        }
+        })
+    }
+    /// accepts this type and std's (e.g. `std::time::UNIX_EPOCH`)
+    pub fn duration_since<T: Into<std::time::SystemTime>>(&self, earlier: T) -> Result<Duration, std::time::SystemTimeError> {
+        self.0.duration_since(earlier.into())
+    }
+    pub fn elapsed(&self) -> Result<Duration, std::time::SystemTimeError> {
+        SystemTime::now().0.duration_since(self.0)
+    }
+    pub fn checked_add(&self, d: Duration) -> Option<SystemTime> {
+        self.0.checked_add(d).map(SystemTime)
+    }
+    pub fn checked_sub(&self, d: Duration) -> Option<SystemTime> {
+        self.0.checked_sub(d).map(SystemTime)
+    }
+}
+
+impl From<SystemTime> for std::time::SystemTime {
+    fn from(t: SystemTime) -> std::time::SystemTime {
+        t.0
+    }
+}
+
+impl Add<Duration> for SystemTime {
+    type Output = SystemTime;
+    fn add(self, d: Duration) -> SystemTime {
+        SystemTime(self.0 + d)
+    }
+}
+
+impl Sub<Duration> for SystemTime {
+    type Output = SystemTime;
+    fn sub(self, d: Duration) -> SystemTime {
+        SystemTime(self.0 - d)
+    }
+}
+
+impl std::ops::AddAssign<Duration> for SystemTime {
+    fn add_assign(&mut self, d: Duration) {
+        self.0 += d;
+    }
+}
+
+impl std::ops::SubAssign<Duration> for SystemTime {
+    fn sub_assign(&mut self, d: Duration) {
+        self.0 -= d;
     }
 }
